@@ -73,4 +73,27 @@ theorem pair_branch (P : Prims) (key : Key) (h : Nat) (d sig : Bytes) (a : Nat) 
     simp [hrej, hx, hn, hv]
 
 
+
+/-- a panic can only come from a nil key pointer of the declared type -/
+theorem verifySignature_no_panic (P : Prims) (key : Key) (data : Bytes) (ds : DigitallySigned) (hn : key.isNil = false) :
+    verifySignature P key data ds ≠ .panic := by
+  unfold verifySignature verifyPair
+  dsimp only
+  repeat' split
+  all_goals simp_all
+
+theorem verifySCT_no_panic (P : Prims) (key : Key) (sct : SCT) (e : Entry) (hn : key.isNil = false) :
+    verifySCT P key sct e ≠ .panic := by
+  unfold verifySCT
+  split
+  · simp
+  · exact verifySignature_no_panic P key _ _ hn
+
+theorem verifySTH_no_panic (P : Prims) (key : Key) (sth : STH) (hn : key.isNil = false) :
+    verifySTH P key sth ≠ .panic := by
+  unfold verifySTH
+  split
+  · simp
+  · exact verifySignature_no_panic P key _ _ hn
+
 end CTV.SigV
